@@ -137,7 +137,7 @@ def _varopt_drift(oc, repo, seed, tier):
       "one deleted candidate) refining the contract, of the multi-object contract (sketch, copies, union results), and two negative "
       "design variants that TLC must reject; traces: randomized histories of the real var_opt_sketch<int64_t / std::string> and "
       "var_opt_union (8 weight profiles, k 1..24(64), lvalue/rvalue updates, invalid k / weights, copies, reset, unions of sketches with "
-      "different k and fill incl. light-many against heavy-few inputs, pure-reservoir inputs of different k and results fed on and updated, damaged images refused, reset() of sketches and unions from every gadget mode followed by a second life in every mode, copy / move construction and assignment between unions in different modes, every Obs repeated through a copied-iterator traversal idiom, serde of sketches and unions with continued use of the restored objects, directed restore-then-continue in lock-step at the empty / one-item / just-reset states of sketches and unions in every file), "
+      "different k and fill incl. light-many against heavy-few inputs, pure-reservoir inputs of different k and results fed on and updated, damaged images refused, zero-weight updates ignored at every state, weight units 1/1024 .. 2^20 per segment (streams of weights all < 1, all > 10^6, mixed), StatIncl events (inclusion k/(n+a) of the first arrivals after copy / assignment / restore of an estimation-mode sketch, 1000 seeded runs per checkpoint kind, 6 sigma), reset() of sketches and unions from every gadget mode followed by a second life in every mode, copy / move construction and assignment between unions in different modes, every Obs repeated through a copied-iterator traversal idiom, serde of sketches and unions with continued use of the restored objects, directed restore-then-continue in lock-step at the empty / one-item / just-reset states of sketches and unions in every file), "
       "every event validated by TLC against the contract: |sample| = min(n,k), sample from the input, one common reservoir weight, "
       "H + tau*|R| = exact total, every item heavier than tau kept exactly, estimate over everything = total, lb <= est <= ub for 6 predicates, "
       "union result n / total / items / k <= max_k; Stat events: 400 seeded runs per statistic, |sum(est - truth)| <= 6*sqrt(sum (est-truth)^2) + T/2 + 1; "
@@ -208,7 +208,7 @@ EBPPS_MC = [
       "MC: exhaustive TLC run of the EBPPS contract bookkeeping (n, cumulative weight, maximum weight, k, c = min(k, cumWt/wtMax) through floor, "
       "ceiling and floor(c*10^4); merges in both directions; every result the clauses admit; derived: equal weights and n <= k keeps every item); "
       "traces: randomized histories of the real ebpps_sketch<int64_t / std::string> (5 weight profiles, k 1..16(40), lvalue/rvalue updates and merges "
-      "in both size directions, directed merges of light-many against heavy-few operands (weight ratio 10^2..10^4, n-order and weight-order disagreeing), invalid k / weights, get_result and iteration, copies, reset, serde with continued use, directed restore-then-continue in lock-step at the empty / one-item / just-reset states in every file), every event validated by TLC: "
+      "in both size directions, directed merges of light-many against heavy-few operands (weight ratio 10^2..10^4, n-order and weight-order disagreeing), invalid k / weights, zero-weight updates ignored, weight units 1/1024 .. 2^20 per segment (all weights < 1 gives rho > 1), get_result and iteration, copies, reset, serde with continued use, directed restore-then-continue in lock-step at the empty / one-item / just-reset states in every file), every event validated by TLC: "
       "n, k, cumulative weight exact, round(get_c()*10^4) within one unit of floor(10^4*min(k, cumWt/wtMax)), result size in {floor(c), ceil(c)}, "
       "items distinct and from the input, equal weights and n <= k keeps everything, merge: n adds, cumWt adds, k = min; Stat events: 2000 seeded runs in a saturated (c = k) and an unsaturated fractional-c regime, each traversed by 8 idioms (get_result, loop, range-for, range ctor, std::copy, std::for_each, it++ value, iterators by value), "
       "per idiom and item |count - T*p| <= 6*sqrt(T*p*(1-p)) + 1 with p = c*w/W and |sum sizes - T*c| <= 3*sqrt(T) + 1; a segment is non-trivial when a result was drawn at fractional c after "
